@@ -113,6 +113,22 @@ fn unit_names(e: &Expr, out: &mut Vec<String>) {
     }
 }
 
+/// `e` with every unit name that `defs` defines replaced by that definition
+fn substitute(e: &Expr, defs: &BTreeMap<String, Expr>) -> Expr {
+    match e {
+        Expr::Unit { name } => match defs.get(name) {
+            Some(d) => d.clone(),
+            None => e.clone(),
+        },
+        Expr::Of { property, expr } => Expr::Of { property: property.clone(), expr: Box::new(substitute(expr, defs)) },
+        Expr::BinOp(b) => Expr::new_bin(b.op, substitute(&b.left, defs), substitute(&b.right, defs)),
+        Expr::UnaryOp(u) => Expr::UnaryOp(rink_core::ast::UnaryOpExpr { op: u.op.clone(), expr: Box::new(substitute(&u.expr, defs)) }),
+        Expr::Mul { exprs } => Expr::Mul { exprs: exprs.iter().map(|x| substitute(x, defs)).collect() },
+        Expr::Call { func, args } => Expr::Call { func: func.clone(), args: args.iter().map(|x| substitute(x, defs)).collect() },
+        _ => e.clone(),
+    }
+}
+
 fn known_or(known: &BTreeSet<String>, st: &mut Stats, sig: &str, example: &str, detail: String) -> CaseResult {
     if known.contains(sig) {
         st.known(sig, example);
@@ -327,6 +343,21 @@ fn check_substances(ctx: &Context, cfg: Cfg, known: &BTreeSet<String>, st: &mut 
                     siblings.insert(p.input_name.clone());
                     siblings.insert(p.output_name.clone());
                 }
+                // what a sibling's name stands for, as an expression over database names
+                let mut sibling_defs: BTreeMap<String, Expr> = BTreeMap::new();
+                let is_one = |e: &Expr| matches!(e, Expr::Const { value } if *value == rink_core::types::Numeric::one());
+                for p in properties {
+                    if is_one(&p.input.0) {
+                        sibling_defs.insert(p.output_name.clone(), p.output.0.clone());
+                    }
+                    if is_one(&p.output.0) {
+                        sibling_defs.insert(p.input_name.clone(), p.input.0.clone());
+                    }
+                    // the property's own name stands for its value: output per input
+                    sibling_defs
+                        .entry(p.name.clone())
+                        .or_insert_with(|| Expr::new_frac(p.output.0.clone(), p.input.0.clone()));
+                }
                 for p in properties {
                     let stored = match sub.properties.properties.get(&p.name) {
                         Some(s) => s,
@@ -343,10 +374,20 @@ fn check_substances(ctx: &Context, cfg: Cfg, known: &BTreeSet<String>, st: &mut 
                     for (which, expr, want) in [("input", &p.input.0, &stored.input), ("output", &p.output.0, &stored.output)] {
                         let mut used = vec![];
                         unit_names(expr, &mut used);
-                        if used.iter().any(|n| siblings.contains(n) || siblings.contains(n.trim_end_matches('s'))) {
-                            st.class("substance_property_refers_to_sibling (not evaluable from outside)");
-                            continue;
-                        }
+                        let substituted;
+                        let expr = if used.iter().any(|n| siblings.contains(n) || siblings.contains(n.trim_end_matches('s'))) {
+                            // the sibling names exist only while the substance is being loaded: write
+                            // their own definitions in their place and evaluate that from outside
+                            st.class("substance_property_refers_to_sibling (siblings substituted by their definitions)");
+                            let mut e = (*expr).clone();
+                            for _ in 0..4 {
+                                e = substitute(&e, &sibling_defs);
+                            }
+                            substituted = e;
+                            &substituted
+                        } else {
+                            expr
+                        };
                         match catch(|| ctx.eval(expr)) {
                             Ok(Ok(Value::Number(n))) => {
                                 st.class("substance_property_reevaluated");
@@ -393,7 +434,7 @@ pub fn run(cx: &Cx) -> Report {
     rep.assumptions = vec![
         "the currency overlay is the repo's tests/currency.snapshot.json (live data cannot be fetched)".into(),
         "warnings the parser prints to stdout are captured through fd 1 and count as warnings".into(),
-        "substance properties that refer to sibling properties of the same substance cannot be re-evaluated through the public API and are counted, not checked".into(),
+        "substance properties that refer to sibling properties of the same substance (names that exist only while the substance loads) are re-evaluated with each sibling name replaced by the sibling's own definition".into(),
     ];
     crate::regress::run(cx, &mut rep, &replay);
     for cfg in [Cfg::Core, Cfg::Currency] {
